@@ -1,2 +1,33 @@
 from p_pool import Pool, make
+import subprocess
+import core
+
 PLUGIN = make("C02")
+
+
+def extra(tier, seed):
+    """R1 support run (testing, not proof): the real pool on a MULTI-THREAD runtime with many concurrent
+    request tasks (harness/src/bin/poolstress.rs), checking the safety halves of C02 (no second holder, no
+    hand-out while busy), C05 (nothing closed before the Issue), C06 (own origin) and C15 (idle bound) under
+    real interleavings inside Checkout::poll, which the atomic-step model cannot exhibit."""
+    core.harness_build("poolstress", release=True)
+    exe = core.harness_path("poolstress", release=True)
+    runs = []
+    viol = []
+    configs = [(2, 1), (0, 0), (1, 0)] if tier == "quick" else [(2, 1), (0, 0), (1, 0), (1, 1), (8, 1), (2, 0)] * 4
+    for i, (max_idle, cont) in enumerate(configs):
+        args = [exe, str(seed * 100 + i), "8", "32", "150" if tier == "quick" else "400", str(max_idle), str(cont)]
+        try:
+            p = subprocess.run(args, stdout=subprocess.PIPE, stderr=subprocess.PIPE, text=True, timeout=600, env=core.ENV)
+            line = (p.stdout.strip().splitlines() or [f"exit {p.returncode}: {p.stderr[-300:]}"])[-1]
+        except subprocess.TimeoutExpired:
+            line = "HANG (no result within 600 s)"
+        runs.append({"args": " ".join(args[1:]), "result": line[:300]})
+        if not line.startswith("OK"):
+            viol.append({"property": "C02", "kind": "multi-thread stress run of the real pool violates a safety clause (C02/C05/C06/C15)",
+                         "case": " ".join(args), "impl_observation": line,
+                         "rerun": " ".join(args) + "   (non-deterministic schedule: re-run a few times)"})
+    return {"what": extra.__doc__, "runs": runs}, viol
+
+
+PLUGIN.extra = extra
